@@ -132,18 +132,25 @@ class BaseLoadedMessage(LoadedMessageInterface):
         return bytes(self.content)
 
     def _get_subpart(self, section: Sequence[int] | None) -> MessageContent:
-        if section:
-            subpart = self.content
-            for i in section:
-                if subpart.body.has_nested:
-                    subpart = subpart.body.nested[i - 1]
-                elif i == 1:
-                    pass
-                else:
-                    raise IndexError(i)
-            return subpart
-        else:
+        # Part numbers as in RFC 3501 6.4.5: the parts of a multipart are
+        # numbered from 1, a message that is not multipart has the single
+        # part 1, and the numbers after a message/rfc822 part refer to the
+        # parts of the message it encloses.
+        if not section:
             return self.content
+        container = subpart = self.content
+        for i in section:
+            if container.body.has_nested and not container.is_rfc822:
+                subpart = container.body.nested[i - 1]
+            elif i == 1:
+                subpart = container
+            else:
+                raise IndexError(i)
+            if subpart.is_rfc822 and subpart.body.has_nested:
+                container = subpart.body.nested[0]
+            else:
+                container = subpart
+        return subpart
 
     def get_header(self, name: bytes) -> Sequence[str]:
         try:
@@ -252,7 +259,7 @@ class BaseLoadedMessage(LoadedMessageInterface):
         disposition = parsed.content_disposition
         language = parsed.content_language
         location = parsed.content_location
-        if maintype == 'multipart':
+        if maintype == 'multipart' and msg.body.has_nested:
             sub_body_structs = [cls._get_body_structure(part)
                                 for part in msg.body.nested]
             return MultipartBodyStructure(
